@@ -52,12 +52,20 @@ class A(Adapter):
     has_observer = True
 
     def configs(self):
-        return [cfg("r10c10m10", True, r=10, c=10, m=10), cfg("r3c5m2", True, r=3, c=5, m=2), cfg("r6c4m5", True, r=6, c=4, m=5), cfg("r2c2m1", r=2, c=2, m=1)]
+        return [cfg("r10c10m10", True, r=10, c=10, m=10), cfg("r3c5m2", True, r=3, c=5, m=2), cfg("r6c4m5", True, r=6, c=4, m=5), cfg("r2c2m1", r=2, c=2, m=1),
+                # user-chosen reward values, all three different (the defaults give the same 0 to a mine and to an invalid action)
+                cfg("r4c5m4rew", True, r=4, c=5, m=4, rew=[0.5, -1.0, -0.25], props=["C01", "C03", "C05", "C09"])]
 
     def build(self, c):
         from jumanji.environments import Minesweeper
         from jumanji.environments.logic.minesweeper.generator import UniformSamplingGenerator
-        return Minesweeper(generator=UniformSamplingGenerator(num_rows=c["r"], num_cols=c["c"], num_mines=c["m"]))
+        g = UniformSamplingGenerator(num_rows=c["r"], num_cols=c["c"], num_mines=c["m"])
+        if c.get("rew"):
+            from jumanji.environments.logic.minesweeper.reward import DefaultRewardFn
+            re_, rm, ri = c["rew"]
+            return Minesweeper(generator=g, reward_function=DefaultRewardFn(revealed_empty_square_reward=re_, revealed_mine_reward=rm,
+                                                                            invalid_action_reward=ri))
+        return Minesweeper(generator=g)
 
     def horizon(self, env, c):
         return c["r"] * c["c"] - c["m"]
@@ -84,8 +92,9 @@ class A(Adapter):
         r, c = int(action[0]), int(action[1])
         if int(ts.step_type) != 2:
             return ("invalid_move_not_terminal", f"step_type {int(ts.step_type)} after exploring the already explored square {(r, c)}")
-        if float(ts.reward) != 0.0:
-            return ("invalid_move_reward", f"reward {float(ts.reward)} != 0 for the already explored square {(r, c)}")
+        ri = float((cfg.get("rew") or [1.0, 0.0, 0.0])[2])
+        if not np.isclose(float(ts.reward), ri, rtol=1e-5, atol=1e-6):
+            return ("invalid_move_reward", f"reward {float(ts.reward)} != {ri} (the configured invalid-action reward) for the already explored square {(r, c)}")
         if float(ts.discount) != 0.0:
             return ("invalid_move_discount", f"discount {float(ts.discount)} != 0 on the terminal step")
         return None
@@ -129,15 +138,16 @@ class A(Adapter):
         pb, nb = np.asarray(ps.board), np.asarray(s.board)
         mines = mine_grid(ps)
         valid = pb[r, c] == -1
+        re_, rm, ri = (float(x) for x in (cfg.get("rew") or [1.0, 0.0, 0.0]))
         if not valid:
-            want_r, done, why = 0.0, True, "already explored square"
+            want_r, done, why = ri, True, "already explored square"
         elif mines[r, c]:
-            want_r, done, why = 0.0, True, "mine"
+            want_r, done, why = rm, True, "mine"
         else:
             want_b = pb.copy()
             want_b[r, c] = neighbours(mines, r, c)
             done = is_solved(want_b, mines)
-            want_r, why = 1.0, "safe square"
+            want_r, why = re_, "safe square"
             if not np.array_equal(nb, want_b):
                 d = np.argwhere(nb != want_b)[0].tolist()
                 return ("board", f"exploring the safe square {(r, c)}: cell {d} is {int(nb[tuple(d)])}, the rules give {int(want_b[tuple(d)])}")
